@@ -48,7 +48,7 @@ def config_strategy(flavour="mixed"):
             "table": "dense", "pmax": 2, "fmax": 2, "bootstrap": [0], "rseed": draw(st.integers(0, 99)),
             "log": draw(log_strategy(big)), "start_base": draw(st.sampled_from([0, 0, 5, 1000])),
             "group": group, "every_n": draw(st.sampled_from([0, 1, 3])) if group else None, "every_ms": draw(st.sampled_from([0, 0, 500])) if group else None,
-            "buffer": buf, "max_buffer": maxbuf, "retry_init": init, "retry_max": draw(st.sampled_from([init, 0.5 if init <= 0.5 else 1.0, 30.0])),
+            "buffer": buf, "max_buffer": maxbuf, "retry_init": init, "retry_max": draw(st.sampled_from([init, round(init * 1.3, 4), round(init * 2.0, 4), 0.5 if init <= 0.5 else 1.0, 30.0])),
             "max_attempts": draw(st.sampled_from([0, 0, 1, 2, 3, 5])), "reset": draw(st.sampled_from([None, None, -2, -1])),
             "procs": draw(st.lists(st.sampled_from(["sync_ok"] * 6 + ["async", "async", "async", "sync_raise", "stop_inside", "commit_inside"]), max_size=14)),
         }
@@ -856,6 +856,7 @@ class CONSEngine(Engine):
             if not later:
                 if run["watch"].state == "err" and run["watch"].value.check(ConsumerFetchSizeTooSmall):
                     rec["_buf_checked"] = True
+                    self.note("C12.enlarges-not-skips", "C12.consumer-gave-up-instead-of-enlarging", "a message did not fit the %d-byte fetch buffer, the maximum %r was not reached, yet the consumer failed with ConsumerFetchSizeTooSmall instead of enlarging its buffer" % (b, mx))
                     self.note("C14.buffer-growth", "C14.buffer-gave-up-early", "fetch buffer %d too small, maximum %r not reached, yet the start() Deferred failed with ConsumerFetchSizeTooSmall" % (b, mx))
                 continue
             rec["_buf_checked"] = True
@@ -867,7 +868,11 @@ class CONSEngine(Engine):
             if b <= 2 ** 20 < want:
                 self.nt.add("buffer-growth-across-1MiB")
             if nxt["offset"] != rec["offset"]:
+                self.note("C12.enlarges-not-skips", "C12.consumer-skipped-oversized-message", "message at offset %d did not fit %d bytes; the next fetch asks for offset %d instead of the same offset with a larger buffer" % (rec["offset"], b, nxt["offset"]))
                 self.note("C14.buffer-growth", "C14.skipped-oversized-message", "message at offset %d did not fit %d bytes; the next fetch asks for offset %d" % (rec["offset"], b, nxt["offset"]))
+            elif nxt["max_bytes"] <= b:
+                self.note("C12.enlarges-not-skips", "C12.consumer-did-not-enlarge", "message at offset %d did not fit %d bytes; the next fetch asks for %d bytes" % (rec["offset"], b, nxt["max_bytes"]))
+                self.note("C14.buffer-growth", "C14.buffer-growth-rule", "buffer %d too small: next fetch asks for %d bytes, the rule (x16 up to 1 MiB, then x2, capped at %r) gives %d" % (b, nxt["max_bytes"], mx, want))
             elif nxt["max_bytes"] != want:
                 self.note("C14.buffer-growth", "C14.buffer-growth-rule", "buffer %d too small: next fetch asks for %d bytes, the rule (x16 up to 1 MiB, then x2, capped at %r) gives %d" % (b, nxt["max_bytes"], mx, want))
 
